@@ -153,7 +153,10 @@ func (c *pchecker) command(what string, cm ast.Command) (ast.Pos, ast.Pos) {
 		for i, ao := range x {
 			w := fmt.Sprintf("%s.List[%d]", what, i)
 			cp, ce := c.command(w, ao)
-			c.within(w, cp, ce, p, e, hd)
+			// (a list, an and-or list and a pipeline end where their last
+			// element ends, here-document or not; an earlier element with a
+			// here-document may end later than that)
+			c.within(w, cp, ce, p, e, hd && i < len(x)-1)
 			if i > 0 && !prev.Before(cp) {
 				c.errf("%s: starts at %s, not after its predecessor at %s", w, ps(cp), ps(prev))
 			}
@@ -161,13 +164,13 @@ func (c *pchecker) command(what string, cm ast.Command) (ast.Pos, ast.Pos) {
 		}
 	case *ast.AndOrList:
 		cp, ce := c.command(what+".Pipeline", x.Pipeline)
-		c.within(what+".Pipeline", cp, ce, p, e, hd)
+		c.within(what+".Pipeline", cp, ce, p, e, hd && len(x.List) > 0)
 		prev := cp
 		for i, ao := range x.List {
 			w := fmt.Sprintf("%s.AndOr[%d]", what, i)
 			c.spell(w+".OpPos", ao.OpPos, ao.Op)
 			ap, ae := c.node(w, ao)
-			c.within(w, ap, ae, p, e, hd)
+			c.within(w, ap, ae, p, e, hd && i < len(x.List)-1)
 			if !prev.Before(ap) {
 				c.errf("%s: starts at %s, not after its predecessor at %s", w, ps(ap), ps(prev))
 			}
@@ -184,13 +187,13 @@ func (c *pchecker) command(what string, cm ast.Command) (ast.Pos, ast.Pos) {
 	case *ast.Pipeline:
 		c.optSpell(what+".Bang", x.Bang, "!")
 		cp, ce := c.command(what+".Cmd", x.Cmd)
-		c.within(what+".Cmd", cp, ce, p, e, hd)
+		c.within(what+".Cmd", cp, ce, p, e, hd && len(x.List) > 0)
 		prev := cp
 		for i, pi := range x.List {
 			w := fmt.Sprintf("%s.Pipe[%d]", what, i)
 			c.spell(w+".OpPos", pi.OpPos, pi.Op)
 			ap, ae := c.node(w, pi)
-			c.within(w, ap, ae, p, e, hd)
+			c.within(w, ap, ae, p, e, hd && i < len(x.List)-1)
 			if !prev.Before(ap) {
 				c.errf("%s: starts at %s, not after its predecessor at %s", w, ps(ap), ps(prev))
 			}
